@@ -28,6 +28,10 @@ func (r rateSpec) String() string { return fmt.Sprintf("%d/%v burst %d", r.avera
 func (r rateSpec) perToken() time.Duration { return r.period / time.Duration(r.average) }
 
 type tlim struct {
+	// onWarn, when set, runs while the limiter is inside a Warn call of its logger (it logs a refusal after it
+	// has decided it and before it answers): whatever other traffic the harness wants to land in that window
+	onWarn  func()
+	inWarn  bool
 	lim     *ratelimit.TokenLimiter
 	handled int
 	h       http.Handler
@@ -76,6 +80,23 @@ var perSourceRates map[string][]rateSpec
 
 var slowRateLogger bool
 
+// overlapLogger: the limiter's logger is one during whose Warn calls other requests arrive (tlim.onWarn)
+var overlapLogger bool
+
+type windowLogger struct{ l *tlim }
+
+func (g windowLogger) Debug(f string, a ...interface{}) { _ = fmt.Sprintf(f, a...) }
+func (g windowLogger) Info(f string, a ...interface{})  { _ = fmt.Sprintf(f, a...) }
+func (g windowLogger) Error(f string, a ...interface{}) { _ = fmt.Sprintf(f, a...) }
+func (g windowLogger) Warn(f string, a ...interface{}) {
+	_ = fmt.Sprintf(f, a...)
+	if g.l.onWarn != nil && !g.l.inWarn {
+		g.l.inWarn = true
+		defer func() { g.l.inWarn = false }()
+		g.l.onWarn()
+	}
+}
+
 // ownErrHandler: the limiter is built with a caller-supplied error handler
 var ownErrHandler bool
 
@@ -110,6 +131,9 @@ func newTLim(rt *rapid.T, rates []rateSpec, capacity int) *tlim {
 	}
 	if slowRateLogger {
 		opts = append(opts, ratelimit.Logger(simkit.SlowLogger{}))
+	}
+	if overlapLogger {
+		opts = append(opts, ratelimit.Logger(windowLogger{l}))
 	}
 	if ownErrHandler {
 		// the caller's error handler: same mapping as the default one, so every oracle keeps its meaning, plus
